@@ -24,7 +24,7 @@ BATCH = 40
 DET = ['emm', 'emm_obj', 'emm_lumped', 'its', 'ck', 'coring', 'coring_obj', 'wt', 'paths', 'sim', 'shift',
        'rename_idx', 'rename_pop', 'unique', 'peq', 'is_ergodic', 'mask', 'eig', 'gauss', 'gauss2d', 'rmean',
        'rownorm', 'mpow', 'swapcols', 'swapcols_f', 'format', 'statetraj', 'peq_big', 'eig_big', 'sim_obj', 'ck_obj',
-       'ck_arr', 'its_arr', 'wt_arr', 'emm_lumped2']
+       'ck_arr', 'its_arr', 'wt_arr', 'emm_lumped2', 'rewrap', 'rewrap2']
 RND = ['mcmc', 'msm_wt', 'msm_tt', 'msm_paths', 'tmat', 'tmat_neg', 'msm_wt_lumped', 'msm_tt_lumped']
 
 
@@ -89,7 +89,7 @@ def gen_ring(rng, tier):
         f = {a: 3 + 2 * (i % 3) for i, a in enumerate(present)}
         trajs, labs2, akind = _junction(rng)
         hist = [['call', 'emm_ring'], ['rand', 'msm_wt_ring', rng.randrange(10**6)], ['call', 'emm_ring'],
-                ['rand', 'msm_paths_ring', rng.randrange(10**6)], ['call', 'emm_ring']]
+                ['rand', 'msm_paths_ring', rng.randrange(10**6)], ['call', 'emm_ring'], ['call', 'rewrap_ring'], ['call', 'emm_ring']]
         yield {'trajs': trajs, 'lag': 1, 'S': [labs2[0]], 'F': [labs2[2]], 'hist': hist, 'tau': 2, 'alpha': akind + '+ring',
                'dtype': 'int64', 'ring': {'micro': t, 'macro': [f[v] for v in t]}}
 
@@ -256,6 +256,11 @@ def impl(case):
         'msm_tt_lumped': lambda: mh.msm.timescales.estimate_transition_times(trajs=lobj, lagtime=lag, start=[50], final=[51], steps=200),
         'emm_lumped2': lambda: lobj2.estimate_markov_model(lag),
         'emm_ring': lambda: lobj3.estimate_markov_model(1),
+        # handing an existing object to the constructors again (what every analysis does internally), also with
+        # another value of `positive`: the caller's object comes back and must be left as it was
+        'rewrap': lambda: [mh.LumpedStateTraj(lobj, positive=True) is lobj, mh.StateTraj(lobj) is lobj, mh.StateTraj(obj) is obj],
+        'rewrap2': lambda: [mh.LumpedStateTraj(lobj2, positive=True) is lobj2, mh.msm.estimate_markov_model(mh.LumpedStateTraj(lobj2, positive=True), lag)],
+        'rewrap_ring': lambda: mh.msm.estimate_markov_model(mh.LumpedStateTraj(lobj3, positive=True), 1),
         'msm_wt_ring': lambda: mh.msm.estimate_waiting_times(trajs=lobj3, lagtime=1, start=[int(lobj3.states[0])], final=[int(lobj3.states[-1])], steps=200, return_list=True),
         'msm_paths_ring': lambda: sorted((list(map(int, k)), list(map(int, v))) for k, v in mh.msm.estimate_paths(
             trajs=lobj3, lagtime=1, start=[int(lobj3.states[0])], final=[int(lobj3.states[-1])], steps=200).items()),
